@@ -264,7 +264,9 @@ def run(prog, rep, tier):
                     stripped.discard(d)
                     zpat.discard(d)
         return (frozenset(stripped), frozenset(zpat))
-    sts = flow.disjunctive(b, (frozenset(), frozenset()), blk)
+    wrap, blk2, edge2 = flow.with_flags(b, blk)
+    sts_ = flow.disjunctive(b, wrap((frozenset(), frozenset())), blk2, edge2)
+    sts = {k: frozenset(x[0] for x in v) for k, v in sts_.items()}
     vloc = flow.named_target(b, pc.args[0])
     ploc = flow.named_target(b, pc.args[1])
     at_parse = sts.get(pc.bb, frozenset())
